@@ -60,7 +60,7 @@ What is decided (all structurally, nothing under /repo is imported or run):
                  from `self._list` is accepted; any other design of `remove` is UNDECIDED.
 
 Floors (sites read on today's tree): suffix_table 12 (11 suffixes + plain keyword), resolver 20 (18 public attributes + a custom
-attribute + parent_id), all_filters 1 (the single return of __call__), result 3, readonly 19 (7 query functions + 12 getters),
+attribute + a custom `parent_..` attribute + parent_id = 21 today), all_filters 1 (the single return of __call__), result 3, readonly 19 (7 query functions + 12 getters),
 bulk_assign 1, remove_all 9 (per variant: query, removal, "all returns" counted once so that merging returns is not an
 analysis error; WBS.tasks; two sites in WBS.__remove), remove_each 3.  A function end reachable without `return` counts as
 `return None`.
@@ -72,6 +72,16 @@ remove_each also reads `setattr(owner, '<prop>', ..)` / `getattr(owner, '<prop>'
 or a class constant of the concrete list class (`_link_property`), and judges a `remove` inherited from a shared base class once
 per concrete class; a result built from `next(([t] for t in self._list if C), [])` (or with that on one side of a conditional
 expression) is refuted: only the first task with C is kept (C18-r53).
+
+Round 6: `k.endswith('<S>')` inside a larger expression (a `negated = k.endswith('_not_like_')` flag, `k[0:-10] if negated else
+k[0:-6]`, `found == negated`) is evaluated per suffix and folded, so two suffixes may share one branch as long as strip length
+and truth table are right for each; a keyword splitter `k, suffix = _split(k)` whose body is a first-match loop over a tuple of
+constants is unrolled into the if/elif chain it performs (a misordered tuple is then refuted like a misordered chain); a test
+of the FILTER VALUE (`v is None`) is a third variable of the truth table - the decision must not depend on it (C18-r61), with
+`attr == None <=> attr is None` taken into account for the plain keyword and `_ne_`; the resolver is also run for a custom
+attribute whose name starts with `parent_` (C18-r62: generalising parent_id shadows it); when WBS.remove_all removes through
+the public `WBS.remove`, that method may raise only for argument-type guards - a guard on the task's state (`task.wbs is not
+self`, `task not in self.tasks`) is refuted: a match that left with a removed ancestor makes remove_all raise midway (C18-r63).
 
 Shapes followed since round 3: the attribute resolver is today's `__get_task_attribute` or - when that anchor is gone - the
 one package function `search` calls as `<fn>(<task>, <name>)` (moved to module level, to another class, nested in `__call__`);
@@ -187,6 +197,9 @@ def _decide(test: ast.AST, origin: ast.AST) -> List[Tuple[list, bool]]:
         return [(a, bool(r)) for a, r in alts]
     if isinstance(test, ast.Constant):
         return [([], bool(test.value))]
+    if isinstance(test, ast.Compare) and len(test.ops) == 1 and isinstance(test.ops[0], (ast.Eq, ast.NotEq)) \
+            and isinstance(test.left, ast.Constant) and isinstance(test.comparators[0], ast.Constant):
+        return [([], (test.left.value == test.comparators[0].value) == isinstance(test.ops[0], ast.Eq))]
     if isinstance(test, ast.Call) and isinstance(test.func, ast.Name) and test.func.id == 'bool' and len(test.args) == 1 \
             and not test.keywords:
         return _decide(test.args[0], origin)
@@ -381,6 +394,17 @@ class _SearchVocab:
             return (kind, neg, fn, nm)
         return None
 
+    def value_none(self, e) -> Optional[bool]:
+        """`v is None` -> False, `v is not None` -> True (negated), anything else -> None"""
+        neg = False
+        while isinstance(e, ast.UnaryOp) and isinstance(e.op, ast.Not):
+            e, neg = e.operand, not neg
+        if isinstance(e, ast.Compare) and len(e.ops) == 1 and isinstance(e.ops[0], (ast.Is, ast.IsNot, ast.Eq, ast.NotEq)):
+            for a, b in ((e.left, e.comparators[0]), (e.comparators[0], e.left)):
+                if _is_const(b, None) and self.val_is(a):
+                    return neg != isinstance(e.ops[0], (ast.IsNot, ast.NotEq))
+        return None
+
     def regex(self, e):
         """re.<fn>(V, X) / re.compile(V).<fn>(X) -> ('S', fn, NAME); swapped operands -> ('X', msg, NAME)"""
         if not (isinstance(e, ast.Call) and isinstance(e.func, ast.Attribute) and e.func.attr in ('search', 'match', 'fullmatch', 'findall')):
@@ -528,9 +552,50 @@ class _Specialiser(ast.NodeTransformer):
                 strs = self._strs(r)
                 if strs is not None:
                     return ast.Constant(value=(l.value in strs) == isinstance(op, ast.In))
+        # <condition> == True / != False / is True ...  (a `negated` flag compared with a boolean result)
+        if isinstance(op, (ast.Eq, ast.NotEq, ast.Is, ast.IsNot)):
+            for a, b in ((l, r), (r, l)):
+                if isinstance(b, ast.Constant) and isinstance(b.value, bool) and self._boolean(a):
+                    keep = b.value == isinstance(op, (ast.Eq, ast.Is))
+                    if isinstance(a, ast.Constant):
+                        return ast.Constant(value=bool(a.value) == keep)
+                    return a if keep else ast.UnaryOp(op=ast.Not(), operand=a)
+        return node
+
+    @staticmethod
+    def _boolean(e) -> bool:
+        """an expression whose value is a bool (so that `e == True` is `e`)"""
+        if isinstance(e, ast.Constant):
+            return isinstance(e.value, bool)
+        if isinstance(e, ast.Compare):
+            return True
+        if isinstance(e, ast.UnaryOp) and isinstance(e.op, ast.Not):
+            return True
+        if isinstance(e, ast.Call) and isinstance(e.func, ast.Name) and e.func.id in ('bool', 'isinstance', 'callable'):
+            return True
+        if isinstance(e, ast.BoolOp):
+            return all(_Specialiser._boolean(v) for v in e.values)
+        return False
+
+    def visit_IfExp(self, node):
+        self.generic_visit(node)
+        if isinstance(node.test, ast.Constant):
+            return node.body if node.test.value else node.orelse
+        return node
+
+    def visit_UnaryOp(self, node):
+        self.generic_visit(node)
+        if isinstance(node.op, ast.Not) and isinstance(node.operand, ast.Constant):
+            return ast.Constant(value=not node.operand.value)
         return node
 
     def visit_Call(self, node):
+        # k.endswith('<suffix>') inside a larger expression (a `negated = k.endswith('_not_like_')` flag)
+        if isinstance(node.func, ast.Attribute) and node.func.attr == 'endswith' and self.V.is_key(node.func.value) \
+                and len(node.args) == 1 and not node.keywords and isinstance(node.args[0], ast.Constant) \
+                and isinstance(node.args[0].value, str):
+            self.used_key = True
+            return ast.Constant(value=bool(self.A) and self.A.endswith(node.args[0].value))
         # k.endswith(<tuple of suffixes / table>)
         if isinstance(node.func, ast.Attribute) and node.func.attr == 'endswith' and self.V.is_key(node.func.value) \
                 and len(node.args) == 1 and not node.keywords and not isinstance(node.args[0], ast.Constant):
@@ -923,6 +988,57 @@ def _inline_value_helpers(prog, f, stmts: List[ast.stmt], skip=()) -> List[ast.s
     return [ast.fix_missing_locations(T().visit(copy.deepcopy(st))) for st in stmts]
 
 
+def _unroll_first_match(prog, f, stmts: List[ast.stmt]) -> List[ast.stmt]:
+    """`<targets> = g(<args>)` where g is a package function of the shape
+           for x in (<constants>): if <test>: return <E>
+           return <E0>
+    becomes the if/elif chain it performs (`if <test[x:=c1]>: <targets> = <E[x:=c1]> elif .. else: <targets> = <E0>`), so that a
+    keyword splitter (`k, suffix = _split_filter_keyword(k)`) is executed symbolically like an in-line endswith chain"""
+    out = []
+    for st in stmts:
+        new = None
+        if isinstance(st, ast.Assign) and len(st.targets) == 1 and isinstance(st.value, ast.Call) and isinstance(st.value.func, ast.Name) \
+                and not st.value.keywords and not any(isinstance(a, ast.Starred) for a in st.value.args):
+            g = prog.module_func(f.module.name, st.value.func.id)
+            if g is None and st.value.func.id in f.module.imports:
+                origin = prog.resolve_import(f.module, st.value.func.id)
+                g = prog.funcs.get(origin) if origin else None
+            body = [x for x in g.node.body if not (isinstance(x, ast.Expr) and isinstance(x.value, ast.Constant))] \
+                if g is not None and isinstance(g.node, ast.FunctionDef) else []
+            if len(body) == 2 and isinstance(body[0], ast.For) and isinstance(body[1], ast.Return) and body[1].value is not None \
+                    and not body[0].orelse and isinstance(body[0].target, ast.Name) and len(body[0].body) == 1 \
+                    and isinstance(body[0].body[0], ast.If) and not body[0].body[0].orelse and len(body[0].body[0].body) == 1 \
+                    and isinstance(body[0].body[0].body[0], ast.Return) and body[0].body[0].body[0].value is not None \
+                    and len(g.params) == len(st.value.args):
+                it = body[0].iter
+                if isinstance(it, ast.Name):          # a module-level tuple of constants
+                    for ms in g.module.tree.body:
+                        if isinstance(ms, ast.Assign) and len(ms.targets) == 1 and isinstance(ms.targets[0], ast.Name) \
+                                and ms.targets[0].id == it.id:
+                            it = ms.value
+                if isinstance(it, (ast.Tuple, ast.List)) and it.elts and all(isinstance(c, ast.Constant) for c in it.elts):
+                    bind = dict(zip(g.params, st.value.args))
+                    x = body[0].target.id
+                    inner = body[0].body[0]
+                    chain = [ast.Assign(targets=copy.deepcopy(st.targets), value=subst(body[1].value, bind))]
+                    for c in reversed(it.elts):
+                        b2 = dict(bind)
+                        b2[x] = c
+                        chain = [ast.If(test=subst(inner.test, b2),
+                                        body=[ast.Assign(targets=copy.deepcopy(st.targets), value=subst(inner.body[0].value, b2))],
+                                        orelse=chain)]
+                    new = chain[0]
+                    for n in ast.walk(new):
+                        ast.copy_location(n, st)
+                    ast.fix_missing_locations(new)
+        if new is None:
+            for fld in ('body', 'orelse'):
+                if isinstance(getattr(st, fld, None), list) and isinstance(st, (ast.If, ast.For, ast.While)):
+                    setattr(st, fld, _unroll_first_match(prog, f, getattr(st, fld)))
+        out.append(new if new is not None else st)
+    return out
+
+
 RESOLVER_ANCHOR = 'task._ImmutableTaskList.__get_task_attribute'
 
 
@@ -1057,7 +1173,8 @@ def _suffix_table(ctx):
         # ---- the loop body
         env_body = {k: v for k, v in env0.items() if k not in (key_v,) and not val_is(ast.Name(id=k, ctx=ast.Load()))}
         try:
-            paths = [p for p, _ in _run(_inline_value_helpers(prog, f, loop.body, skip=(resolver.qual,)), env_body, [], None)]
+            loop_body = _unroll_first_match(prog, f, _inline_value_helpers(prog, f, loop.body, skip=(resolver.qual,)))
+            paths = [p for p, _ in _run(loop_body, env_body, [], None)]
         except _Undecided as u:
             o.undecided(f, u.node, u.node, u.msg)
             return
@@ -1128,6 +1245,11 @@ def _one_suffix(o, f, V: _SearchVocab, paths: List[_Path], suffix: str, tables: 
         for e, pol, org in rest:
             c = V.classify(e)
             if c is None:
+                vn = V.value_none(e)
+                if vn is not None:
+                    # a test of the FILTER VALUE (`v is None`): a third variable of the truth table
+                    catoms.append(('F', vn, None, pol, e, org))
+                    continue
                 o.undecided(f, org, e, f"{label}: condition `{src(e)}` is not a None test, a comparison of the attribute value with "
                                        f"the filter value or a regular-expression search")
                 return
@@ -1206,6 +1328,8 @@ def _one_suffix(o, f, V: _SearchVocab, paths: List[_Path], suffix: str, tables: 
                     o.refute(f, org, e, f"{wrong_branch}{label}: the code compares with `{info}` (`{src(e)}`); the property's table says "
                                         f"`{_op_text(suffix)}`")
                     return
+            elif kind == 'F':
+                lits.append(('F', truth_if_var_true, e, org, False))
             elif kind == 'S':
                 if fam != 'like':
                     o.refute(f, org, e, f"{wrong_branch}{label}: the code runs a regular expression (`{src(e)}`); the property's table says "
@@ -1217,44 +1341,51 @@ def _one_suffix(o, f, V: _SearchVocab, paths: List[_Path], suffix: str, tables: 
                     return
                 lits.append(('P', truth_if_var_true, e, org, True))
         norm_paths.append((lits, outcome, p))
-    # ---- truth table
+    # ---- truth table (f_val: the filter value is None - only when the code tests it)
+    has_f = any(var == 'F' for lits, _, _ in norm_paths for var, _, _, _, _ in lits)
     for n_val in (False, True):
         for p_val in (True, False):
-            hits = []
-            for lits, outcome, p in norm_paths:
-                if all((n_val if var == 'N' else p_val) == want for var, want, _, _, _ in lits):
-                    hits.append((lits, outcome, p))
-            outs = {h[1] for h in hits}
-            if len(outs) != 1:
-                o.undecided(f, f.node, label, f"{label}: the decision for (value is None={n_val}, operator atom={p_val}) is not unique")
-                return
-            lits, outcome, p = hits[0]
-            if n_val:
-                for var, want, e, org, unsafe in lits:
-                    if var == 'P' and unsafe:
-                        o.refute(f, org, e, f"{label}: `{src(e)}` is evaluated although the attribute value may be None (missing attribute): "
-                                            f"the None guard `is None` is missing or comes too late; a task lacking the attribute must "
-                                            f"simply not match")
-                        return
-            want_pass = _spec_pass(suffix, n_val, p_val)
-            if (outcome == 'pass') != want_pass:
-                site = next((x for x in reversed(lits)), None)
-                node = site[3] if site else (p.node or f.node)
-                cons = site[2] if site else label
-                state = f"the attribute value is {'None' if n_val else 'present'} and `{_op_text(suffix, True)}` is {p_val}"
-                if fam == 'isnone':
-                    state = f"the attribute value is {'None' if n_val else 'not None'}"
-                elif not n_val:
-                    state = f"`{_op_text(suffix, True)}` is {p_val}"
-                if fam in ('cmp', 'like') and n_val:
-                    state = "the attribute value is None (missing attribute)"
-                o.refute(f, node, cons, f"{wrong_branch}{label}: when {state} the filter {'passes' if outcome == 'pass' else 'rejects'} the "
-                                        f"task; the property's table (`{_op_text(suffix)}`) says it must "
-                                        f"{'pass' if want_pass else 'be rejected'}")
-                return
-    if wrong_branch:       # dispatched to another branch that happens to agree: cannot happen with the table, be safe
-        o.undecided(f, f.node, label, wrong_branch + "although strip and operator agree")
-        return
+            for f_val in ((False, True) if has_f else (False,)):
+                if f_val and ((fam == 'eq' and p_val != n_val) or (fam == 'cmp' and op == '!=' and p_val != (not n_val))):
+                    continue         # filter value None: `attr == None` holds exactly when the attribute value is None
+                hits = []
+                for lits, outcome, p in norm_paths:
+                    if all({'N': n_val, 'P': p_val, 'F': f_val}[var] == want for var, want, _, _, _ in lits):
+                        hits.append((lits, outcome, p))
+                outs = {h[1] for h in hits}
+                if len(outs) != 1:
+                    o.undecided(f, f.node, label, f"{label}: the decision for (value is None={n_val}, operator atom={p_val}) is not unique")
+                    return
+                lits, outcome, p = hits[0]
+                if n_val:
+                    for var, want, e, org, unsafe in lits:
+                        if var == 'P' and unsafe:
+                            o.refute(f, org, e, f"{label}: `{src(e)}` is evaluated although the attribute value may be None (missing attribute): "
+                                                f"the None guard `is None` is missing or comes too late; a task lacking the attribute must "
+                                                f"simply not match")
+                            return
+                want_pass = _spec_pass(suffix, n_val, p_val)
+                if (outcome == 'pass') != want_pass:
+                    site = next((x for x in reversed(lits)), None)
+                    node = site[3] if site else (p.node or f.node)
+                    cons = site[2] if site else label
+                    state = f"the attribute value is {'None' if n_val else 'present'} and `{_op_text(suffix, True)}` is {p_val}"
+                    if fam == 'isnone':
+                        state = f"the attribute value is {'None' if n_val else 'not None'}"
+                    elif not n_val:
+                        state = f"`{_op_text(suffix, True)}` is {p_val}"
+                    if fam in ('cmp', 'like') and n_val:
+                        state = "the attribute value is None (missing attribute)"
+                    fl = [x for x in lits if x[0] == 'F']
+                    if fl:
+                        state += f" and the filter value {'is' if f_val else 'is not'} None (the code tests `{src(fl[0][2])}`: the decision " \
+                                 f"must not depend on that)"
+                    o.refute(f, node, cons, f"{wrong_branch}{label}: when {state} the filter {'passes' if outcome == 'pass' else 'rejects'} the "
+                                            f"task; the property's table (`{_op_text(suffix)}`) says it must "
+                                            f"{'pass' if want_pass else 'be rejected'}")
+                    return
+    # (a branch shared with a shorter suffix - `if k.endswith('_like_'): negated = k.endswith('_not_like_')` - is fine when, as
+    #  checked above, strip length and truth table are those of THIS suffix)
     o.site(f, names[0][1], f"{label}: strips {len(suffix)} chars, {_op_text(suffix)}"
                             f"{', None rejected first' if fam in ('cmp', 'like') else ''}")
 
@@ -1285,6 +1416,7 @@ def _public_attributes(prog):
 
 
 CUSTOM = '<custom attribute given as Task(**kwargs)>'
+CUSTOM_PARENT = 'parent_<custom attribute whose name starts with parent_, e.g. parent_ticket>'
 
 
 def _resolver(ctx):
@@ -1330,7 +1462,7 @@ def _resolver(ctx):
                     if isinstance(r, (ast.Tuple, ast.List, ast.Set)) and all(isinstance(x, ast.Constant) for x in r.elts):
                         return (attr in [x.value for x in r.elts]) == pos
                     if is_dict(r) or match(f"{T}.__dict__.keys()", r):
-                        return (attr in instance or attr == CUSTOM) == pos
+                        return (attr in instance or attr in (CUSTOM, CUSTOM_PARENT)) == pos
                     if match(f"dir({T})", r):
                         return (attr != 'parent_id') == pos
                 if isinstance(op, (ast.Is, ast.IsNot)) and _is_const(r, None) and match(f"{T}.parent", l):
@@ -1360,6 +1492,18 @@ def _resolver(ctx):
                 return 'dict'
             if match(f"{T}.parent.id", v):
                 return 'parent.id'
+            if isinstance(v, ast.Call) and len(v.args) == 2 and not v.keywords and match(f"{T}.parent", v.args[0]) and \
+                    unmangle(getattr(v.func, 'attr', getattr(v.func, 'id', ''))) == f.name:
+                # the resolver applied to the parent: which attribute of the parent?
+                x, sub = v.args[1], None
+                if isinstance(x, ast.Constant) and isinstance(x.value, str):
+                    sub = x.value
+                elif isinstance(x, ast.Subscript) and is_name(x.value) and isinstance(x.slice, ast.Slice) and x.slice.upper is None \
+                        and x.slice.step is None and _const_int(x.slice.lower) is not None and _const_int(x.slice.lower) >= 0:
+                    sub = attr[_const_int(x.slice.lower):]
+                if sub == 'id' and attr == 'parent_id':
+                    return 'parent.id'
+                return 'other:parent.' + (sub or '?')
             if isinstance(v, ast.Attribute) and is_task(v.value):
                 return 'read' if v.attr == attr else 'other:' + v.attr
             if match(f"getattr({T}, $c, None)", v) or match(f"getattr({T}, $c)", v):
@@ -1369,7 +1513,7 @@ def _resolver(ctx):
             return None
 
         first = [x for x in ('estimate', 'spent', 'parent', 'id') if x in public]
-        attrs = first + sorted(public - set(first)) + [CUSTOM, 'parent_id']
+        attrs = first + sorted(public - set(first)) + [CUSTOM, CUSTOM_PARENT, 'parent_id']
         for attr in attrs:
             bad = False
             for has_parent in ((True, False) if attr == 'parent_id' else (True,)):
@@ -1413,7 +1557,7 @@ def _resolver(ctx):
                         bad = True
                         break
                     continue
-                is_prop = attr != CUSTOM and attr not in instance
+                is_prop = attr not in (CUSTOM, CUSTOM_PARENT) and attr not in instance
                 if vk == 'read':
                     continue
                 if vk == 'dict' and not is_prop:
@@ -1422,6 +1566,9 @@ def _resolver(ctx):
                     ("resolves to None" if vk == 'none' else f"resolves to `{src(vexpr)}`")
                 extra = (": it is backed by a property (the instance dict holds the mangled field), so filters on it never see its "
                          "value - `tasks(%s=..)` matches nothing and `%s_is_none_` matches every task" % (attr, attr)) if is_prop else ''
+                if isinstance(vk, str) and vk.startswith('other:parent.') and attr == CUSTOM_PARENT:
+                    extra = (": a task's own attribute whose name starts with `parent_` is shadowed - filters on it read the PARENT's "
+                             "attribute (None without a parent); only `parent_id` is a pseudo attribute")
                 o.refute(f, vnode, vexpr if not isinstance(vexpr, str) else attr, f"public attribute `{attr}` {why}{extra}")
                 bad = True
                 break
@@ -2035,6 +2182,32 @@ def _remove_all(ctx):
                 return ('bad', f"not every match is removed: {w[1]}")
             return None
 
+        def public_remove_total(c) -> bool:
+            """WBS.remove_all removes through the public `WBS.remove`: that one must not raise for a match that is no longer in
+            the tree (it left together with a matching ancestor removed earlier in the same loop) - only argument-type guards
+            (`not isinstance(task, Task)`, `task is None`) may raise"""
+            r = prog.func('wbs.WBS.remove')
+            tp = r.params[1] if len(r.params) > 1 else None
+            for gd in facts.guards_of(prog, r, ctx.typer):
+                gd.conds = [facts.norm_cond(t, pol) for t0, p0 in gd.conds for t, pol in facts.split_conj(t0, p0)]
+                type_guard = any((match(f"isinstance({tp}, $c)", t) and not pol) or (match(f"{tp} is None", t) and pol) or
+                                 (match(f"{tp} is not None", t) and not pol) for t, pol in gd.conds)
+                if type_guard:
+                    continue
+                state = [(t, pol) for t, pol in gd.conds if any(isinstance(n, ast.Attribute) and isinstance(n.value, ast.Name)
+                                                               and n.value.id == tp for n in ast.walk(t))
+                         or (isinstance(t, ast.Compare) and any(isinstance(op, (ast.In, ast.NotIn)) for op in t.ops) and tp in names_in(t))]
+                if state:
+                    o.refute(f, c, gd.node, f"remove_all removes through the public `{src(c)}`, and WBS.remove raises when "
+                                            f"{', '.join(facts.cond_texts(state))}: a match that already left the WBS together with a "
+                                            f"matching ancestor removed earlier in the loop makes remove_all raise midway - the matches "
+                                            f"after it stay in the WBS and nothing is returned")
+                else:
+                    o.undecided(f, c, gd.node, f"WBS.remove can raise under a condition this rule does not understand (" +
+                                ', '.join(facts.cond_texts(gd.conds)) + "): remove_all calls it once per match")
+                return False
+            return True
+
         # ---- the removals
         # list variant: self.remove(t).  WBS variant: self.remove(t), or a tree walker - any package function / method of the
         # class with two parameters that is called with the hidden root and (a) one match or (b) the collection of all matches
@@ -2135,6 +2308,8 @@ def _remove_all(ctx):
                     o.refute(f, c, c, f"the removal is conditional ({txt}): some matching tasks stay in the list")
                 else:
                     o.undecided(f, c, c, f"the removal is executed under a condition the rule does not understand ({txt})")
+                continue
+            if wbs and isinstance(c.func, ast.Attribute) and c.func.attr == 'remove' and not public_remove_total(c):
                 continue
             o.site(f, c, f"for {var} in matches: {src(c)}")
         # ---- the returns
